@@ -3,7 +3,8 @@ package main
 // C08 — Cedar text marshalling round-trips every policy: DIRECT ORACLE on the implementation
 // (MarshalCedar → UnmarshalCedar; effect/annotations/scope; evaluation on ≥ 8 environments; second
 // rendering byte-identical; PolicyList / PolicySet / Encoder→Decoder sequences), plus the
-// correspondence of the Lean model of the marshaller (ops marshal, marshal-parse).
+// correspondence of the Lean model of the marshaller (ops marshal, marshal-parse) and of the value renderers
+// types.Value.MarshalCedar (op marshal-value: bytes up to set member order + the parser's reading of them).
 
 import (
 	"bytes"
@@ -176,7 +177,7 @@ var c08Texts = []string{
 }
 
 func runC08(c *vh.Ctx) {
-	c.Res.Rule = "policies from three sources (builder: every (parent kind, operand position, child kind) pairing over 42 node/value kinds, random syntactic trees, type-directed trees; text: hand-written corpus + reparsed policies; JSON: MarshalJSON→UnmarshalJSON), oracle per policy: MarshalCedar→UnmarshalCedar succeeds, effect/annotations/scope equal, every condition and the whole policy evaluate identically (value or error kind) on 8-10 environments, second MarshalCedar byte-identical; PolicyList/PolicySet/Encoder→Decoder sequences; model marshaller bytes+tokens and model parse∘marshal vs Go; distinct = distinct first rendering; non-trivial = policy has a condition with at least one operator"
+	c.Res.Rule = "policies from three sources (builder: every (parent kind, operand position, child kind) pairing over 42 node/value kinds, random syntactic trees, type-directed trees; text: hand-written corpus + reparsed policies; JSON: MarshalJSON→UnmarshalJSON), oracle per policy: MarshalCedar→UnmarshalCedar succeeds, effect/annotations/scope equal, every condition and the whole policy evaluate identically (value or error kind) on 8-10 environments, second MarshalCedar byte-identical; PolicyList/PolicySet/Encoder→Decoder sequences; model marshaller bytes+tokens and model parse∘marshal vs Go; model Value.MarshalCedar vs Go's on generated NodeValue contents (scalars, extension values at their boundaries, nested sets and records, colliding hashes, keys over every escape class): bytes exactly, sets after bringing Go's real output into ascending member-text order, and the model parser's reading of that text vs Go's (op marshal-value); distinct = distinct first rendering; non-trivial = policy has a condition with at least one operator"
 	g := vh.NewGen(c.Rng)
 	// a world without the zero EntityUID (`::""` has no spelling in Cedar syntax)
 	w := &vh.World{}
@@ -381,15 +382,21 @@ func runC08(c *vh.Ctx) {
 	}
 
 	c08Containers(c, good)
+	valueFragLines := c08Values(c, g, sg, b)
 
 	ds, model, err := c.Correspond(b)
 	for _, l := range fragLines {
 		if err == nil && l < len(model) {
 			for _, f := range strings.Fields(model[l]) {
-				if strings.HasPrefix(f, "go=") {
+				if strings.HasPrefix(f, "go=") || strings.HasPrefix(f, "gov=") {
 					c.Dist("proved-domain:" + f)
 				}
 			}
+		}
+	}
+	for _, l := range valueFragLines {
+		if err == nil && l < len(model) {
+			c.Dist("value-proved-domain:" + model[l])
 		}
 	}
 	if err != nil {
@@ -400,6 +407,195 @@ func runC08(c *vh.Ctx) {
 		c.Report(vh.Finding{Class: "model-mismatch:" + d.Line.Op, What: fmt.Sprintf("%s: model %.200q vs implementation %.200q", d.Line.Op, d.Model, d.Line.Impl),
 			Check: "correspondence", Op: d.Line.Op, Input: d.Line.Payload(), Expected: d.Model, Actual: d.Line.Impl, NoInput: true})
 	}
+}
+
+// canonValueTextC08 brings the text types.Value.MarshalCedar wrote into the canonical member order used by the model
+// op marshal-value: the member texts of every set in ascending byte order (Go writes them in hash-slot order).
+// Nothing else is changed: the text is cut at the token boundaries Go's own scanner finds and put together again with
+// the separators `, ` and `:`; rebuilding it WITHOUT sorting must reproduce the original bytes, otherwise an error is
+// returned (so the framing `[`, `, `, `]`, `{`, `:`, `}` written by Go is compared byte for byte as well).
+func canonValueTextC08(text []byte) (string, error) {
+	toks, err := verifhooks.C0708Tokenize(text)
+	if err != nil {
+		return "", fmt.Errorf("scanner: %w", err)
+	}
+	pos := 0
+	peek := func() (string, int) {
+		if pos < len(toks) && toks[pos].Type != 0 {
+			return toks[pos].Text, toks[pos].Type
+		}
+		return "", 0
+	}
+	var parse func(sorted bool) (string, error)
+	parse = func(sorted bool) (string, error) {
+		t, _ := peek()
+		switch t {
+		case "[":
+			pos++
+			var ms []string
+			if x, _ := peek(); x == "]" {
+				pos++
+				return "[]", nil
+			}
+			for {
+				m, err := parse(sorted)
+				if err != nil {
+					return "", err
+				}
+				ms = append(ms, m)
+				x, _ := peek()
+				pos++
+				if x == "," {
+					continue
+				}
+				if x == "]" {
+					break
+				}
+				return "", fmt.Errorf("set: unexpected %q", x)
+			}
+			if sorted {
+				sort.Strings(ms)
+			}
+			return "[" + strings.Join(ms, ", ") + "]", nil
+		case "{":
+			pos++
+			var es []string
+			if x, _ := peek(); x == "}" {
+				pos++
+				return "{}", nil
+			}
+			for {
+				k, ty := peek()
+				if ty != 4 {
+					return "", fmt.Errorf("record: key %q is not a string token", k)
+				}
+				pos++
+				if x, _ := peek(); x != ":" {
+					return "", fmt.Errorf("record: expected ':' after key, got %q", x)
+				}
+				pos++
+				v, err := parse(sorted)
+				if err != nil {
+					return "", err
+				}
+				es = append(es, k+":"+v)
+				x, _ := peek()
+				pos++
+				if x == "," {
+					continue
+				}
+				if x == "}" {
+					break
+				}
+				return "", fmt.Errorf("record: unexpected %q", x)
+			}
+			return "{" + strings.Join(es, ", ") + "}", nil
+		case "":
+			return "", fmt.Errorf("unexpected end")
+		}
+		var sb strings.Builder
+		depth := 0
+		for {
+			x, _ := peek()
+			if x == "" || (depth == 0 && (x == "," || x == "]" || x == "}")) {
+				break
+			}
+			if x == "(" {
+				depth++
+			}
+			if x == ")" {
+				depth--
+			}
+			sb.WriteString(x)
+			pos++
+		}
+		if sb.Len() == 0 {
+			return "", fmt.Errorf("empty scalar")
+		}
+		return sb.String(), nil
+	}
+	plain, err := parse(false)
+	if err != nil {
+		return "", err
+	}
+	if x, _ := peek(); x != "" || plain != string(text) {
+		return "", fmt.Errorf("rebuilding the text from its tokens gives %q", plain)
+	}
+	pos = 0
+	return parse(true)
+}
+
+// c08Values: correspondence of the model of types.Value.MarshalCedar on the content of NodeValues (scalars, sets,
+// records, extension values): bytes up to set member order (exact bytes for set-free values and for sets with at most
+// one member), and the model parser's reading of the text vs Go's.  Returns the batch lines of op value-fragment.
+func c08Values(c *vh.Ctx, g *vh.Gen, sg *vh.SynGen, b *vh.Batch) []int {
+	var vals []types.Value
+	vals = append(vals, vh.ExtValuesC08()...)
+	vals = append(vals, vh.CollidingValues()...)
+	vals = append(vals, types.NewSet(vh.CollidingValues()...), types.NewSet(), types.NewRecord(types.RecordMap{}),
+		types.NewSet(types.NewSet(), types.NewSet(types.NewSet())),
+		types.NewSet(types.NewSet(types.Long(2), types.Long(1)), types.NewSet(types.Long(1), types.Long(3))),
+		types.NewRecord(types.RecordMap{"a\"b": types.Long(1), "": types.NewSet(types.Long(-1)), "\a": types.String("\a"), "é*": types.Boolean(true), "if": types.NewRecord(types.RecordMap{"\x00": types.Long(0)})}))
+	for _, ev := range vh.ExtValuesC08() {
+		vals = append(vals, types.NewSet(ev), types.NewSet(ev, types.Long(1), types.String("x")), types.NewRecord(types.RecordMap{"k": ev}))
+	}
+	for i, n := 0, c.N(2500, 60000); i < n; i++ {
+		switch i % 3 {
+		case 0:
+			vals = append(vals, sg.ValueC08(c.Rng.Intn(4)))
+		case 1:
+			vals = append(vals, sg.ValueC08(1+c.Rng.Intn(2)))
+		default:
+			vals = append(vals, g.ValueC13(c.Rng.Intn(3), false))
+		}
+	}
+	var fragLines []int
+	for _, v := range vals {
+		// a value with an entity type that is no grammar path (or invalid UTF-8) has no Cedar text form
+		if r := vh.ExpressibleC0708(&ast.Policy{Effect: ast.EffectPermit, Principal: ast.ScopeTypeAll{}, Action: ast.ScopeTypeAll{}, Resource: ast.ScopeTypeAll{},
+			Conditions: []ast.ConditionType{{Condition: ast.ConditionWhen, Body: ast.NodeValue{Value: v}}}}); r != "" {
+			c.Dist("value:not-expressible:" + r)
+			continue
+		}
+		var text []byte
+		if pn := vh.Protect(func() { text = v.MarshalCedar() }); pn != nil {
+			c.Report(vh.Finding{Class: "value-marshal-panics", What: fmt.Sprintf("Value.MarshalCedar panics: %v", pn), Check: "oracle", Op: "Value.MarshalCedar", Input: vh.EncValue(v)})
+			continue
+		}
+		c.Res.OracleChecks++
+		ctext, err := canonValueTextC08(text)
+		if err != nil {
+			c.Report(vh.Finding{Class: "value-rendering-shape", What: fmt.Sprintf("Value.MarshalCedar output %q is not `[m, …]` / `{\"k\":v, …}` / a scalar: %v", text, err),
+				Check: "oracle", Op: "Value.MarshalCedar", Input: vh.EncValue(v), Actual: string(text)})
+			continue
+		}
+		kind := "scalar"
+		switch v.(type) {
+		case types.Set:
+			kind = "set"
+		case types.Record:
+			kind = "record"
+		case types.Decimal, types.Datetime, types.Duration, types.IPAddr:
+			kind = "extension"
+		}
+		c.Dist("value:" + kind)
+		if ctext != string(text) {
+			c.Dist("value:go-order-differs-from-canonical")
+		}
+		c.Count("value:"+string(text), kind != "scalar")
+		parse := "err"
+		var pol cedar.Policy
+		var perr error
+		if pn := vh.Protect(func() { perr = pol.UnmarshalCedar([]byte("permit(principal,action,resource) when { " + ctext + " };")) }); pn == nil && perr == nil {
+			if a := (*ast.Policy)(pol.AST()); len(a.Conditions) == 1 {
+				parse = "ok " + vh.ShowExprC07(a.Conditions[0].Body)
+			}
+		}
+		enc := vh.EncValue(v)
+		b.Add("marshal-value", map[string]any{"value": enc}, "ctext="+vh.Hex(ctext)+" parse="+parse, "value")
+		fragLines = append(fragLines, b.Add("value-fragment", map[string]any{"value": enc}, "", "value-fragment"))
+	}
+	return fragLines
 }
 
 func mkPol(p *ast.Policy) *cedar.Policy { return cedar.NewPolicyFromAST((*publicast.Policy)(p)) }
